@@ -36,14 +36,18 @@ type boWorld struct {
 func RunBuildTimeOpener(c *eng.Ctx, next func() (int, bool)) {
 	perms := permutations4()
 	repeats := c.Pick(6, 24)
-	for variant := 0; variant < 3; variant++ {
+	for variant := 0; variant < 4; variant++ {
 		for pi, perm := range perms {
 			idx, mine := next()
 			if !mine {
 				continue
 			}
 			c.R.Begin(idx)
-			feat := []string{"opener-keeps-the-scope", "opener-closes-the-scope", "opener-keeps-the-scope:initializer-needs-two-singletons"}[variant]
+			feat := []string{"opener-keeps-the-scope", "opener-closes-the-scope", "opener-keeps-the-scope:initializer-needs-two-singletons",
+				// two scopes are open when the singletons are done; the initializer run for the first
+				// of them closes the other (a job that finished in the meantime): nothing is left to
+				// initialize there, and nothing is wrong with the set
+				"opener-keeps-two-scopes:the-initializer-of-one-closes-the-other"}[variant]
 			viol := func(clause, detail string) {
 				c.R.Violation(eng.Violation{Prop: "C06", Clause: clause, Sig: "C06/" + clause + ":scope-opened-during-build:" + feat, Case: idx, CaseID: fmt.Sprintf("build-time-opener-%d-%d", variant, pi),
 					Detail: feat + ": " + detail, Replay: map[string]any{"fixture": "build-time-opener", "variant": variant, "order": perm}})
@@ -60,10 +64,20 @@ func RunBuildTimeOpener(c *eng.Ctx, next func() (int, bool)) {
 					return &boStore{cfg}
 				}
 				newCache := func(st *boStore) *boCache { return &boCache{st} }
+				var pair [2]godi.Scope
 				newOpener := func(p godi.Provider) (*boOpener, error) {
 					sc, err := p.CreateScope(context.Background())
 					if err != nil {
 						return nil, err
+					}
+					if variant == 3 {
+						sc2, err := p.CreateScope(context.Background())
+						if err != nil {
+							return nil, err
+						}
+						w.mu.Lock()
+						pair = [2]godi.Scope{sc, sc2}
+						w.mu.Unlock()
 					}
 					if variant == 1 {
 						_ = sc.Close()
@@ -73,10 +87,19 @@ func RunBuildTimeOpener(c *eng.Ctx, next func() (int, bool)) {
 				}
 				initStore := func(st *boStore, s godi.Scope) {
 					w.mu.Lock()
-					defer w.mu.Unlock()
 					w.initRuns[s.ID()]++
 					if st == nil || st.cfg == nil {
 						w.earlyInit++
+					}
+					var other godi.Scope
+					for i, x := range pair {
+						if x != nil && x.ID() == s.ID() {
+							other = pair[1-i]
+						}
+					}
+					w.mu.Unlock()
+					if other != nil {
+						_ = other.Close()
 					}
 				}
 				initBoth := func(st *boStore, ca *boCache, s godi.Scope) {
@@ -149,7 +172,7 @@ func RunBuildTimeOpener(c *eng.Ctx, next func() (int, bool)) {
 				}
 				// a scope the opener closed again may or may not have run the initializers; scopes
 				// that are open when Build returns have, once
-				if variant != 1 && runs != scopes {
+				if variant != 1 && variant != 3 && runs != scopes {
 					viol("initializer-count", fmt.Sprintf("%d scopes are open when Build returns (root and the one the singleton opened); the scope initializer ran in %d of them", scopes, runs))
 				}
 				if twice != "" {
